@@ -39,42 +39,35 @@ type Reverse struct {
 // Call the function with the arguments provided.
 func (f *Reverse) Call(s *slip.Scope, args slip.List, depth int) (result slip.Object) {
 	slip.CheckArgCount(s, depth, f, args, 1, 1)
-	result = args[0]
 	switch ta := args[0].(type) {
 	case nil:
 		// leave as nil
 	case slip.String:
-		if 0 < len(ta) {
-			ra := []rune(ta)
-			nl := make([]rune, len(ra))
-			copy(nl, ra)
-			max := len(ra) - 1
-			for i := max / 2; 0 <= i; i-- {
-				nl[i], nl[max-i] = nl[max-i], nl[i]
-			}
-			result = slip.String(nl)
+		ra := []rune(ta)
+		nl := make([]rune, len(ra))
+		copy(nl, ra)
+		max := len(ra) - 1
+		for i := max / 2; 0 <= i && i < len(nl); i-- {
+			nl[i], nl[max-i] = nl[max-i], nl[i]
 		}
+		result = slip.String(nl)
 	case slip.List:
-		if 0 < len(ta) {
-			nl := make(slip.List, len(ta))
-			copy(nl, ta)
-			max := len(ta) - 1
-			for i := max / 2; 0 <= i; i-- {
-				nl[i], nl[max-i] = nl[max-i], nl[i]
-			}
-			result = nl
+		nl := make(slip.List, len(ta))
+		copy(nl, ta)
+		max := len(ta) - 1
+		for i := max / 2; 0 <= i && i < len(nl); i-- {
+			nl[i], nl[max-i] = nl[max-i], nl[i]
 		}
+		result = nl
 	case *slip.Vector:
 		elements := ta.AsList()
-		if 1 < len(elements) {
-			nl := make(slip.List, len(elements))
-			copy(nl, elements)
-			max := len(elements) - 1
-			for i := max / 2; 0 <= i; i-- {
-				nl[i], nl[max-i] = nl[max-i], nl[i]
-			}
-			result = slip.NewVector(len(nl), ta.ElementType(), nil, nl, ta.Adjustable())
+		nl := make(slip.List, len(elements))
+		copy(nl, elements)
+		max := len(elements) - 1
+		for i := max / 2; 0 <= i && i < len(nl); i-- {
+			nl[i], nl[max-i] = nl[max-i], nl[i]
 		}
+		result = slip.NewVector(len(nl), ta.ElementType(), nil, nl, ta.Adjustable())
 	case slip.Octets:
 		nl := make(slip.Octets, len(ta))
 		last := len(ta) - 1
